@@ -874,7 +874,26 @@ Lemma finish_size_shape : forall m m' early, DP m -> finish_size v cfg p m = (m'
   end.
 Proof.
   intros m m' early D E. unfold finish_size in E.
-  destruct (c_size cfg) as [fz|] eqn:Hsz; [|inversion E; subst; split; [apply dp_dpw; exact D|reflexivity]].
+  assert (Hcl0 : forall mm, DP mm -> a_data (ast mm) = true ->
+            Closed (close_fd v p mm) /\ a_data (ast (close_fd v p mm)) = true).
+  { intros mm Dm Hd. destruct (close_fd_inv _ _ (dp_inv _ Dm)) as (A & B & C).
+    split; [split; assumption|rewrite C; exact Hd]. }
+  destruct (c_size cfg) as [fz|] eqn:Hsz.
+  2:{ (* size unknown: extend the file to the end of the data *)
+      rewrite (dp_fd _ D) in E. cbn [andb] in E.
+      destruct (Nat.ltb (a_fdoff (ast m)) (a_off (ast m)));
+        [|inversion E; subst; split; [apply dp_dpw; exact D|reflexivity]].
+      destruct (sys p m (CFtruncate (a_off (ast m)))) as [m1 r1] eqn:E1.
+      pose proof (sys_ast _ _ _ _ _ E1) as Ea1.
+      pose proof (effect_ftruncate _ _ _ _ _ _ (dp_ofd _ D) (sys_effect _ _ _ _ _ E1)) as Ef1.
+      pose proof (hist_sys _ (CFtruncate (a_off (ast m))) _ _ (dp_hist _ D) eq_refl E1) as Hh1.
+      assert (D1 : DP m1).
+      { destruct D as [H1 H2 H3 H4 H5 H6 H7].
+        destruct Ef1 as [(Hr & Hf)|(e & Hr & Hf)]; constructor; rewrite ?Ea1, ?Hf; cbn; try assumption; try reflexivity;
+          intros fz' Hfz'; rewrite Hsz in Hfz'; discriminate Hfz'. }
+      destruct r1; inversion E; subst.
+      all: first [ split; [apply dp_dpw; exact D1|rewrite Ea1; reflexivity]
+                 | apply Hcl0; [exact D1|rewrite Ea1; apply D] ]. }
   rewrite (dp_fd _ D) in E. cbn [negb orb] in E.
   destruct (Nat.eqb (a_fdoff (ast m)) fz); [inversion E; subst; split; [apply dp_dpw; exact D|reflexivity]|].
   destruct (sys p m (CFtruncate fz)) as [m1 r1] eqn:E1.
@@ -1073,7 +1092,7 @@ Proof.
   intros m m' r C E. unfold finish_entry in E.
   destruct (a_data (ast m)) eqn:Hd; cbn [negb] in E.
   - assert (Es : finish_size v cfg p m = (m, None)).
-    { unfold finish_size. destruct (c_size cfg); [|reflexivity]. rewrite (proj2 C). reflexivity. }
+    { unfold finish_size. destruct (c_size cfg); rewrite (proj2 C); reflexivity. }
     rewrite Es in E. eapply finish_meta_closed; [exact C|exact E].
   - inversion E; subst. split; [exact C|split; [exact Hd|reflexivity]].
 Qed.
@@ -1466,7 +1485,8 @@ Qed.
 (* the content the temporary file must have when finish_entry gets past the size step *)
 Definition pad_content (m : mstate) : content :=
   match c_size cfg with
-  | None => store (fs m) TMP_INO
+  | None => if Nat.ltb (a_fdoff (ast m)) (a_off (ast m)) then resize (store (fs m) TMP_INO) (a_off (ast m))
+            else store (fs m) TMP_INO
   | Some fz => if Nat.eqb (a_fdoff (ast m)) fz then store (fs m) TMP_INO
                else resize (store (fs m) TMP_INO) fz
   end.
@@ -1474,7 +1494,11 @@ Definition pad_content (m : mstate) : content :=
 Lemma finish_size_nf : forall m, DP m -> exists ms, finish_size v cfg no_faults m = (ms, None).
 Proof.
   intros m D. unfold finish_size.
-  destruct (c_size cfg) as [fz|]; [|eexists; reflexivity].
+  destruct (c_size cfg) as [fz|].
+  2:{ rewrite (dp_fd _ _ D). cbn [andb].
+      destruct (Nat.ltb (a_fdoff (ast m)) (a_off (ast m))); [|eexists; reflexivity].
+      rewrite (sys_no_faults no_faults m (CFtruncate (a_off (ast m))) eq_refl). cbn [exec]. rewrite (dp_ofd _ _ D).
+      eexists; reflexivity. }
   rewrite (dp_fd _ _ D). cbn [negb orb].
   destruct (Nat.eqb (a_fdoff (ast m)) fz); [eexists; reflexivity|].
   rewrite (sys_no_faults no_faults m (CFtruncate fz) eq_refl). cbn [exec]. rewrite (dp_ofd _ _ D).
@@ -1489,7 +1513,14 @@ Lemma finish_size_content : forall q m m', DP m -> finish_size v cfg q m = (m', 
   store (fs m') TMP_INO = pad_content m.
 Proof.
   intros q m m' D E. unfold finish_size in E. unfold pad_content.
-  destruct (c_size cfg) as [fz|] eqn:Hsz; [|inversion E; subst; reflexivity].
+  destruct (c_size cfg) as [fz|] eqn:Hsz.
+  2:{ rewrite (dp_fd _ _ D) in E. cbn [andb] in E.
+      destruct (Nat.ltb (a_fdoff (ast m)) (a_off (ast m))); [|inversion E; subst; reflexivity].
+      destruct (sys q m (CFtruncate (a_off (ast m)))) as [m1 r1] eqn:E1.
+      pose proof (effect_ftruncate _ _ _ _ _ _ (dp_ofd _ _ D) (sys_effect _ _ _ _ _ E1)) as Ef1.
+      destruct r1 as [x1|e1]; [|discriminate E].
+      inversion E; subst m'.
+      destruct Ef1 as [(_ & Hf)|(e & Hr & _)]; [rewrite Hf; reflexivity|discriminate Hr]. }
   rewrite (dp_fd _ _ D) in E. cbn [negb orb] in E.
   destruct (Nat.eqb (a_fdoff (ast m)) fz); [inversion E; subst; reflexivity|].
   destruct (sys q m (CFtruncate fz)) as [m1 r1] eqn:E1.
